@@ -160,15 +160,16 @@ func genTok(r *vu.Rng) string {
 	case 4: // end tag
 		fmt.Fprintf(&sb, "tok %d %s", html.EndTagToken, vu.Hex([]byte(tagNames[r.Intn(len(tagNames))])))
 	case 5, 6: // comment: anything the comment scanner can deliver
-		v := genValue(r)
-		v = bytes.ReplaceAll(v, []byte("\r"), []byte("\n"))
+		v := genValue(r) // CR is deliverable (input "&#13;"), NUL is not (Text() replaces it)
 		v = bytes.ReplaceAll(v, []byte("\x00"), []byte("�"))
 		v = bytes.ReplaceAll(v, []byte("-->"), []byte("--"))
 		v = bytes.ReplaceAll(v, []byte("--!>"), []byte("--!"))
 		fmt.Fprintf(&sb, "tok %d %s", html.CommentToken, vu.Hex(v))
-	default: // doctype: no leading white space (the scanner skips it)
-		v := bytes.ReplaceAll(genValue(r), []byte("\r"), []byte("\n"))
-		v = bytes.TrimLeft(v, " \t\n\f")
+	default: // doctype: leading white space and CR are deliverable through character references
+		v := genValue(r)
+		if r.Chance(1, 8) {
+			v = append([]byte(" \t\n\f\r"[r.Intn(5):][:1]), v...)
+		}
 		fmt.Fprintf(&sb, "tok %d %s", html.DoctypeToken, vu.Hex(v))
 	}
 	return sb.String()
@@ -250,21 +251,6 @@ func checkToken(t html.Token, origin string, o *vu.Out) bool {
 	back, err := tokenize(s)
 	if err != io.EOF {
 		o.Fail("tok-roundtrip", fmt.Sprintf("%s: token %#v renders as %q which tokenizes with error %v", origin, t, s, err))
-		return false
-	}
-	if len(back) == 1 && t.Type == html.CommentToken && strings.Contains(t.Data, "\r") &&
-		back[0].Type == html.CommentToken && back[0].Data == normNewlines(t.Data) {
-		// known finding: escapeComment leaves CR unescaped, the tokenizer then turns it into LF
-		o.Stat("finding:comment-cr")
-		o.Fail("comment-cr-unescaped", fmt.Sprintf("%s: comment token %q renders as %q which tokenizes to comment %q", origin, t.Data, s, back[0].Data))
-		return false
-	}
-	if len(back) == 1 && t.Type == html.DoctypeToken && back[0].Type == html.DoctypeToken &&
-		t.Data != back[0].Data && strings.TrimLeft(t.Data, " \t\n\f") == back[0].Data {
-		// known finding: doctype data that starts with white space (only obtainable through a character
-		// reference such as "<!DOCTYPE &#32;html>") is emitted raw and skipped by the doctype scanner
-		o.Stat("finding:doctype-leading-space")
-		o.Fail("doctype-leading-space", fmt.Sprintf("%s: doctype token %q renders as %q which tokenizes to doctype %q", origin, t.Data, s, back[0].Data))
 		return false
 	}
 	if len(back) != 1 || !tokEqual(back[0], t) {
